@@ -173,8 +173,10 @@ def linear_initializer(shape,
     heights_tensor = tf.constant(
         [segment_height] * num_pieces, shape=[num_pieces, 1], dtype=dtype)
   else:
+    # A cyclic calibrator has one kernel row less than keypoints: its last
+    # segment is derived from the others.
     keypoints_tensor = tf.constant(
-        keypoints, shape=[num_keypoints, 1], dtype=dtype)
+        keypoints[:num_keypoints], shape=[num_keypoints, 1], dtype=dtype)
     lengths_tensor = keypoints_tensor[1:] - keypoints_tensor[0:-1]
     output_range = output_max - output_min
     heights_tensor = (
